@@ -84,6 +84,10 @@ type outRec struct {
 	Singleton int
 	Samples   int
 	Canon     string // canonical text of all of the above, for comparison
+	// not part of Canon (history checks)
+	MergedAlt map[string]int // merged_pcr: the counts per PCR of the data sets that have the two levels
+	Title     string         // the title line as written
+	Qual      string         // the quality line (FASTQ)
 }
 
 func asInt(v any) (int, bool) {
@@ -95,22 +99,41 @@ func asInt(v any) (int, bool) {
 }
 
 func parseOutput(out []byte) (map[string]outRec, []string, error) {
-	recs, err := ref.ParseFasta(out)
+	return parseOutputAs(out, "fasta", "json")
+}
+
+// parseOutputAs reads what the command wrote: a FASTA or FASTQ file whose title
+// lines carry the annotations as a JSON object (the default) or in the OBI
+// style key=value; (only when the run asked for it).
+func parseOutputAs(out []byte, format, header string) (map[string]outRec, []string, error) {
+	var recs []ref.Rec
+	var err error
+	if format == "fastq" {
+		recs, err = ref.ParseFastq(out)
+	} else {
+		recs, err = ref.ParseFasta(out)
+	}
 	if err != nil {
 		return nil, nil, err
 	}
 	res := map[string]outRec{}
 	var order []string
 	for _, r := range recs {
-		js, _, ok := ref.SplitJSONTitle(r.Title)
-		if !ok {
-			return nil, nil, fmt.Errorf("record %s: title %q carries no JSON annotations", r.ID, r.Title)
-		}
 		var ann map[string]any
-		if err := json.Unmarshal([]byte(js), &ann); err != nil {
-			return nil, nil, fmt.Errorf("record %s: annotations do not parse: %v", r.ID, err)
+		if header == "obi" {
+			if ann, err = obiTitleAnnotations(r.Title); err != nil {
+				return nil, nil, fmt.Errorf("record %s: title %q: %v", r.ID, r.Title, err)
+			}
+		} else {
+			js, _, ok := ref.SplitJSONTitle(r.Title)
+			if !ok {
+				return nil, nil, fmt.Errorf("record %s: title %q carries no JSON annotations", r.ID, r.Title)
+			}
+			if err := json.Unmarshal([]byte(js), &ann); err != nil {
+				return nil, nil, fmt.Errorf("record %s: annotations do not parse: %v", r.ID, err)
+			}
 		}
-		o := outRec{Seq: r.Seq, Status: map[string]string{}, Weight: map[string]int{}, Mutation: map[string]string{}, Merged: map[string]int{}}
+		o := outRec{Seq: r.Seq, Title: r.Title, Qual: string(r.Qual), MergedAlt: map[string]int{}, Status: map[string]string{}, Weight: map[string]int{}, Mutation: map[string]string{}, Merged: map[string]int{}}
 		for _, key := range []string{"obiclean_status", "obiclean_weight", "obiclean_head", "obiclean_headcount",
 			"obiclean_internalcount", "obiclean_singletoncount", "obiclean_samplecount", "count"} {
 			if _, ok := ann[key]; !ok {
@@ -153,6 +176,9 @@ func parseOutput(out []byte) (map[string]outRec, []string, error) {
 			return nil, nil, err
 		}
 		if err := intMap("merged_sample", o.Merged, false); err != nil {
+			return nil, nil, err
+		}
+		if err := intMap("merged_pcr", o.MergedAlt, false); err != nil {
 			return nil, nil, err
 		}
 		if raw, present := ann["obiclean_mutation"]; present {
@@ -480,6 +506,11 @@ func checkCLIWith(c cliCase, model graphModel) error {
 					return fmt.Errorf("%s: %v", desc, err)
 				}
 			}
+			if c.Dist >= 2 && c.Ratio == 1.0 {
+				if err := checkCLIModelDist(c.Recs, c.Dist, out); err != nil {
+					return fmt.Errorf("%s: %v", desc, err)
+				}
+			}
 			if c.NoHeadRun {
 				continue
 			}
@@ -520,15 +551,23 @@ func checkCLIWith(c cliCase, model graphModel) error {
 
 func TestPropCLI(t *testing.T) {
 	rapid.Check(t, func(rt *rapid.T) {
-		big := rapid.IntRange(0, 3).Draw(rt, "big") == 0
+		kind := rapid.IntRange(0, 4).Draw(rt, "big")
+		big := kind == 0
+		dataDist := 0
 		var recs []rec
 		var cl []string
-		if big {
+		switch {
+		case big:
 			// several reader batches with many ties: the shape on which the order of arrival matters
 			recs, cl = genContention(rt, starOpt{maxSons: 150, maxLen: 50, edits: rapid.IntRange(1, 3).Draw(rt, "edits")})
 			cl = append(cl, "cli:contention_shape")
-		} else {
-			recs, cl = genDataset(rt, evid.Pick(40, 60))
+		case kind == 4:
+			// variants at about d true differences plus compatible ambiguity codes, for --distance d (dist_test.go)
+			dataDist = rapid.IntRange(2, 3).Draw(rt, "data_distance")
+			recs, cl = genDistDataset(rt, dataDist, evid.Pick(30, 50))
+			cl = append(cl, "cli:bounded_variants_shape")
+		default:
+			recs, cl = genDatasetZ(rt, evid.Pick(40, 60))
 		}
 		// history of the file: fresh from obiuniq, annotated by an earlier obiclean run on an
 		// earlier state of the data set (two steps), or carrying arbitrary obiclean_* annotations
@@ -554,6 +593,20 @@ func TestPropCLI(t *testing.T) {
 			Dist:      rapid.SampledFrom([]int{1, 1, 2, 3}).Draw(rt, "distance"),
 			Ratio:     rapid.SampledFrom([]float64{1, 1, 0.5, 0.1}).Draw(rt, "ratio"),
 			BatchSize: rapid.SampledFrom([]int{0, 0, 1, 7, 50}).Draw(rt, "batchsize")}
+		if dataDist > 0 && rapid.IntRange(0, 3).Draw(rt, "use_data_distance") != 0 {
+			c.Dist = dataDist
+			c.Ratio = rapid.SampledFrom([]float64{1, 1, 1, 0.5}).Draw(rt, "ratio_d")
+		}
+		extension := 0
+		if c.Dist >= 2 {
+			var dcl []string
+			extension, dcl = distClasses(recs, c.Dist)
+			if c.Ratio == 1 {
+				for _, x := range dcl {
+					cl = append(cl, "cli:"+x)
+				}
+			}
+		}
 		nruns := rapid.IntRange(4, 6).Draw(rt, "nruns")
 		for k := 0; k < nruns; k++ {
 			r := cliRun{MaxCPU: rapid.SampledFrom([]int{1, 2, 3, 4, 8, 16, 32}).Draw(rt, "maxcpu")}
@@ -567,7 +620,7 @@ func TestPropCLI(t *testing.T) {
 			c.Runs = append(c.Runs, r)
 		}
 		_, mcl := modelClasses(recs)
-		internal := false
+		internal := extension > 0 // a link of the second pass of --distance >= 2 makes its son internal
 		for _, x := range mcl {
 			if x == "status:i" {
 				internal = true
